@@ -7,8 +7,46 @@ One case = one line:
   offset    = nil | O <offset> <order> <timestamp> <observed> <lag|n>
 Strings are written as x<hex of the bytes>; floats as decimal text or "nan".
 """
+import glob
+import os
+
 TEMPLATES = ["default-email.tmpl", "default-http-delete.tmpl", "default-http-post.tmpl",
              "default-slack-delete.tmpl", "default-slack-post.tmpl"]
+
+
+def shipped_templates(repo):
+    """The five templates the property names, plus any further template file found in config/ of the tree."""
+    found = sorted(os.path.basename(f) for f in glob.glob(os.path.join(repo, "config", "*.tmpl")))
+    return TEMPLATES + [f for f in found if f not in TEMPLATES]
+
+
+# What the data handed to templates offers (C20, first sentence; documented in the notifier wiki and helpers.go):
+# one-action templates against each documented field / helper, with the text they must print for the fixed status of
+# the probe (cluster "cluster", group "group", event id "event-id", start 1500000000, extras {key: value}, status ERR,
+# one STALL partition of topic "topic" with current lag 25, which is also the max-lag partition).
+OFFERS = [
+    ('{{.Cluster}}', "cluster"), ('{{.Group}}', "group"), ('{{.ID}}', "event-id"), ('{{.Start.Unix}}', "1500000000"),
+    ('{{index .Extras "key"}}', "value"), ('{{.Result.Cluster}}/{{.Result.Group}}', "cluster/group"),
+    ('{{.Result.Status.String}}', "ERR"), ('{{len .Result.Partitions}}', "1"), ('{{.Result.TotalLag}}', "25"),
+    ('{{.Result.TotalPartitions}}', "1"), ('{{.Result.Maxlag.Topic}}', "topic"),
+    ('{{add 1 2}}', "3"), ('{{minus 3 1}}', "2"), ('{{multiply 2 3}}', "6"), ('{{divide 6 3}}', "2"),
+    ('{{maxlag .Result.Maxlag}}', "25"), ('{{formattimestamp 1500000000000 "2006"}}', "2017"),
+    ('{{jsonencoder .Result.Cluster}}', '"cluster"'), ('{{index (partitioncounts .Result.Partitions) "stall"}}', "1"),
+    ('{{index (topicsbystatus .Result.Partitions) "STALL"}}', "[topic]"),
+]
+
+
+def offer_case(text):
+    return "offer " + hx(text)
+
+
+def offer_oracle(text, expect, impl_line):
+    if impl_line == "OK " + hx(expect):
+        return []
+    if impl_line.startswith("OK "):
+        got = bytes.fromhex(impl_line[4:]).decode("utf-8", "replace")
+        return ["the data handed to templates does not offer what is documented: %s prints %r, documented %r" % (text, got, expect)]
+    return ["the data handed to templates does not offer what is documented: %s fails (%s)" % (text, impl_line)]
 JSON_TEMPLATES = {"default-http-delete.tmpl", "default-http-post.tmpl", "default-slack-delete.tmpl", "default-slack-post.tmpl"}
 CLOSE_TEMPLATES = {"default-http-delete.tmpl", "default-slack-delete.tmpl"}
 STATUS = {0: "NOTFOUND", 1: "OK", 2: "WARN", 3: "ERR", 4: "STOP", 5: "STALL", 6: "REWIND"}
@@ -251,7 +289,7 @@ def oracle(c, impl_line):
     """C20 on one observed rendering: inside the property's domain the shipped template must render, and the
     HTTP/Slack ones must render to well-formed JSON.  Returns the list of failed clauses."""
     fails = []
-    if c["template"] not in TEMPLATES or not status_wf(c):
+    if not status_wf(c):
         return fails
     if not impl_line.startswith("OK"):
         fails.append("shipped template %s fails to render for a group status a notifier can receive (%s)" % (c["template"], impl_line))
